@@ -557,8 +557,6 @@ def _fix_bag(c):
     return c
 
 
-SIG_OPT_DF = "optimize:dataframe-collection:rebuilt-from-all-keys-of-the-merged-graph"
-
 
 def case_persist(ctx, inp):
     """dask.persist / dask.optimize on a flat list of collections: same type, metadata, values."""
@@ -570,7 +568,7 @@ def case_persist(ctx, inp):
     has_df = any(k in ("series", "frame") for k in seq)
     import warnings
     for which in inp.get("ops", ["persist", "optimize"]):
-        sig = SIG_OPT_DF if (which == "optimize" and has_df) else None
+        sig = None   # (dask.optimize + dataframe used to be a known finding; repaired by 41fcfbc)
         with warnings.catch_warnings():
             warnings.simplefilter("ignore")
             try:
